@@ -1,45 +1,48 @@
 import RulioProofs.StateSearch
 
+set_option linter.unusedSimpArgs false
+set_option linter.unusedVariables false
+
 /-! # The deleteWith cascade: what is deleted (partial correctness) and why the budget suffices -/
 
 /-! ## pure notions over a fact list -/
 
-abbrev Facts := List (String × Obj)
+abbrev FactList := List (String × Obj)
 
-def keysOf (F : Facts) : List String := F.map (·.1)
+def keysOf (F : FactList) : List String := F.map (·.1)
 
 /-- no stored fact names `i` in `deleteWith` -/
-def NoDeps (F : Facts) (i : String) : Prop := ∀ e, e ∈ F → depOn e.2 i = false
+def NoDeps (F : FactList) (i : String) : Prop := ∀ e, e ∈ F → depOn e.2 i = false
 
 /-- `d` is reachable from `root` along "names … in deleteWith" edges between stored facts -/
-inductive Reach (F : Facts) (root : String) : String → Prop where
-  | base : Reach F root root
-  | step {d k : String} {fact : Obj} : Reach F root d → (k, fact) ∈ F → depOn fact d = true → Reach F root k
+inductive DepReach (F : FactList) (root : String) : String → Prop where
+  | base : DepReach F root root
+  | step {d k : String} {fact : Obj} : DepReach F root d → (k, fact) ∈ F → depOn fact d = true → DepReach F root k
 
-theorem Reach.mono {F F' : Facts} {a b : String} (hs : ∀ e, e ∈ F → e ∈ F') (h : Reach F a b) : Reach F' a b := by
+theorem DepReach.mono {F F' : FactList} {a b : String} (hs : ∀ e, e ∈ F → e ∈ F') (h : DepReach F a b) : DepReach F' a b := by
   induction h with
   | base => exact .base
   | step _ hm hd ih => exact .step ih (hs _ hm) hd
 
-theorem Reach.trans {F : Facts} {a b c : String} (h1 : Reach F a b) (h2 : Reach F b c) : Reach F a c := by
+theorem DepReach.trans {F : FactList} {a b c : String} (h1 : DepReach F a b) (h2 : DepReach F b c) : DepReach F a c := by
   induction h2 with
   | base => exact h1
   | step _ hm hd ih => exact .step ih hm hd
 
-theorem NoDeps.mono {F F' : Facts} {i : String} (hs : ∀ e, e ∈ F' → e ∈ F) (h : NoDeps F i) : NoDeps F' i :=
+theorem NoDeps.mono {F F' : FactList} {i : String} (hs : ∀ e, e ∈ F' → e ∈ F) (h : NoDeps F i) : NoDeps F' i :=
   fun e he => h e (hs e he)
 
-theorem mem_keysOf {F : Facts} {k : String} : k ∈ keysOf F ↔ ∃ fact, (k, fact) ∈ F := by
+theorem mem_keysOf {F : FactList} {k : String} : k ∈ keysOf F ↔ ∃ fact, (k, fact) ∈ F := by
   simp only [keysOf, List.mem_map]
   constructor
   · rintro ⟨e, he, rfl⟩; exact ⟨e.2, he⟩
   · rintro ⟨fact, h⟩; exact ⟨_, h, rfl⟩
 
-theorem keysOf_filterOut (D : List String) (F : Facts) : keysOf (filterOut D F) = (keysOf F).filter (fun k => !D.contains k) := by
+theorem keysOf_filterOut (D : List String) (F : FactList) : keysOf (filterOut D F) = (keysOf F).filter (fun k => !D.contains k) := by
   simp only [keysOf, filterOut, List.filter_map]
   rfl
 
-theorem mem_keysOf_filterOut {D : List String} {F : Facts} {k : String} :
+theorem mem_keysOf_filterOut {D : List String} {F : FactList} {k : String} :
     k ∈ keysOf (filterOut D F) ↔ k ∈ keysOf F ∧ k ∉ D := by
   rw [keysOf_filterOut]; simp
 
@@ -126,7 +129,7 @@ theorem CInv.le {s s' : St} {now : Int} (h : CInv s now) (hle : StLe s s') : CIn
   ⟨hle.keys h.keys, hle.noneExpired h.nexp, hle.idsOK h.ids⟩
 
 /-- the candidate `i` is stored and names `id` -/
-def depPred (F : Facts) (id : String) (i : String) : Bool :=
+def depPred (F : FactList) (id : String) (i : String) : Bool :=
   match amGet F i with | some fact => depOn fact id | none => false
 
 theorem cands_depPat (s : St) (id : String) :
@@ -155,7 +158,7 @@ theorem isearch_dep {s : St} {now : Int} (hne : NoneExpired s now) {id : String}
       ∃ found, St.isearch f s (depPat id) now = (s, .ok found) ∧ found.map (·.1) = c.filter (depPred s.facts id)) ∧
     (c.length + 1 < f →
       ∃ found, St.isearch f s (depPat id) now = (s, .ok found) ∧ found.map (·.1) = c.filter (depPred s.facts id)) := by
-  have hspec : s.ispec (depPat id) = .ok (c.filterMap (hit s.facts (depPat id))) := by
+  have hspec : s.ispec (depPat id) = .ok (c.filterMap (stHit s.facts (depPat id))) := by
     simp only [St.ispec, hc]
     exact scan_depPat s.facts id hid c
   have hmap := hit_depPat_map s.facts id hid c
@@ -168,16 +171,16 @@ theorem isearch_dep {s : St} {now : Int} (hne : NoneExpired s now) {id : String}
   · exact Or.inl h1
   · exact Or.inr ⟨_, h1, hmap⟩
 
-theorem depPred_spec {F : Facts} {id i : String} (h : depPred F id i = true) :
+theorem depPred_spec {F : FactList} {id i : String} (h : depPred F id i = true) :
     ∃ fact, (i, fact) ∈ F ∧ depOn fact id = true := by
   simp only [depPred] at h
   split at h
   · rename_i fact hg; exact ⟨fact, amGet_some_mem hg, h⟩
   · cases h
 
-theorem depPred_of_mem {F : Facts} (hn : (F.map (·.1)).Nodup) {id i : String} {fact : Obj}
+theorem depPred_of_mem {F : FactList} (hn : (F.map (·.1)).Nodup) {id i : String} {fact : Obj}
     (hm : (i, fact) ∈ F) (hd : depOn fact id = true) : depPred F id i = true := by
-  simp only [depPred, amGet_of_mem_nodup hn hm, hd]
+  simp only [depPred, amGet_of_mem_nodup_st hn hm, hd]
 
 /-! ## partial correctness of the cascade -/
 
@@ -186,7 +189,7 @@ root; no surviving fact names a root or a deleted id -/
 structure Cascaded (s s' : St) (roots D : List String) : Prop where
   facts : s'.facts = filterOut D s.facts
   store : s'.store = filterOut D s.store
-  reach : ∀ d, d ∈ D → ∃ r, r ∈ roots ∧ Reach s.facts r d
+  reach : ∀ d, d ∈ D → ∃ r, r ∈ roots ∧ DepReach s.facts r d
   closedR : ∀ r, r ∈ roots → NoDeps s'.facts r
   closedD : ∀ d, d ∈ D → NoDeps s'.facts d
 
@@ -216,7 +219,7 @@ theorem Cascaded.comp {s s1 s' : St} {R1 D1 R2 D2 : List String}
     · exact (h1.closedD d hd).mono h2.sub
     · exact h2.closedD d hd
 
-theorem pair_eta {α β} (x : α × β) {b : β} (h : x.2 = b) : x = (x.1, b) := by
+theorem st_pair_eta {α β} (x : α × β) {b : β} (h : x.2 = b) : x = (x.1, b) := by
   cases x; simp at h; subst h; rfl
 
 /-- the state invariants of the indexed cascade -/
@@ -227,7 +230,57 @@ structure IInv (s : St) (now : Int) : Prop extends CInv s now where
 theorem IInv.le {s s' : St} {now : Int} (h : IInv s now) (hle : StLe s s') : IInv s' now :=
   ⟨h.toCInv.le hle, hle.tiok h.tiok, hle.tinodup h.tinodup⟩
 
-theorem not_mem_keys_of_amGet_none {F : Facts} {i : String} (h : amGet F i = none) : i ∉ keysOf F :=
+/-- the invariants with "nothing expired" relaxed for the root id `i` (deletion of `i` by its own expiry) -/
+structure CInvBut (s : St) (i : String) (now : Int) : Prop where
+  keys : KeysNodup s
+  nexp : NoneExpiredBut s i now
+  ids : IdsOK s
+
+structure IInvBut (s : St) (i : String) (now : Int) : Prop extends CInvBut s i now where
+  tiok : TIOK s
+  tinodup : TINodup s
+
+theorem CInv.but {s : St} {now : Int} (h : CInv s now) (i : String) : CInvBut s i now :=
+  ⟨h.keys, fun e he _ => h.nexp e he, h.ids⟩
+
+theorem IInv.but {s : St} {now : Int} (h : IInv s now) (i : String) : IInvBut s i now :=
+  ⟨h.toCInv.but i, h.tiok, h.tinodup⟩
+
+theorem noneExpired_of_but_filter {s s' : St} {i : String} {now : Int} (h : NoneExpiredBut s i now)
+    (hf : s'.facts = filterOut [i] s.facts) : NoneExpired s' now := by
+  intro e he
+  rw [hf] at he
+  obtain ⟨h1, h2⟩ := mem_filterOut.1 he
+  exact h e h1 (by simpa using h2)
+
+theorem noneExpired_of_but_absent {s : St} {i : String} {now : Int} (h : NoneExpiredBut s i now)
+    (hg : amGet s.facts i = none) : NoneExpired s now := by
+  intro e he
+  apply h e he
+  rintro rfl
+  exact amGet_none_iff.1 hg (List.mem_map.2 ⟨e, he, rfl⟩)
+
+theorem CInvBut.ldel {s : St} {i : String} {now : Int} (h : CInvBut s i now) : CInv (s.ldel i) now :=
+  ⟨(ldel_le s i).keys h.keys,
+   noneExpired_of_but_filter h.nexp (by simp only [St.ldel, amErase_eq_filterOut]),
+   (ldel_le s i).idsOK h.ids⟩
+
+theorem IInvBut.idel {s s1 : St} {i : String} {now : Int} (h : IInvBut s i now) (hs : SameButRi s s1) (fact : Obj) :
+    IInv (s1.idel i fact) now :=
+  have hle := idel_le hs i fact
+  ⟨⟨hle.keys h.keys,
+    noneExpired_of_but_filter h.nexp (by simp only [St.idel, hs.1, amErase_eq_filterOut]),
+    hle.idsOK h.ids⟩, hle.tiok h.tiok, hle.tinodup h.tinodup⟩
+
+theorem IInvBut.absent {s : St} {i : String} {now : Int} (h : IInvBut s i now) (hg : amGet s.facts i = none) :
+    IInv s now :=
+  ⟨⟨h.keys, noneExpired_of_but_absent h.nexp hg, h.ids⟩, h.tiok, h.tinodup⟩
+
+theorem CInvBut.absent {s : St} {i : String} {now : Int} (h : CInvBut s i now) (hg : amGet s.facts i = none) :
+    CInv s now :=
+  ⟨h.keys, noneExpired_of_but_absent h.nexp hg, h.ids⟩
+
+theorem not_mem_keys_of_amGet_none {F : FactList} {i : String} (h : amGet F i = none) : i ∉ keysOf F :=
   amGet_none_iff.1 h
 
 /-- from the dependents list back to the root -/
@@ -239,7 +292,7 @@ theorem Cascaded.of_deps {s s' : St} {i : String} {L D : List String} (h : Casca
   · intro d hd
     obtain ⟨j, hj, hre⟩ := h.reach d hd
     obtain ⟨fact, hm, hdep⟩ := hL j hj
-    exact ⟨i, by simp, (Reach.step .base hm hdep).trans hre⟩
+    exact ⟨i, by simp, (DepReach.step .base hm hdep).trans hre⟩
   · intro r hr
     simp only [List.mem_singleton] at hr; subst hr
     intro e he
@@ -250,7 +303,7 @@ theorem Cascaded.of_deps {s s' : St} {i : String} {L D : List String} (h : Casca
       exact absurd (mem_keysOf.2 ⟨e.2, he⟩) (hgone e.1 hj)
 
 theorem ipost (now : Int) : ∀ f : Nat,
-    (∀ s i, IInv s now → isVar i = false → ∀ s' b, St.irem f s i now = (s', .ok b) →
+    (∀ s i, IInvBut s i now → isVar i = false → ∀ s' b, St.irem f s i now = (s', .ok b) →
       ∃ D, Cascaded s s' [i] D ∧ i ∉ keysOf s'.facts ∧ b = amHas s.facts i ∧ (amHas s.facts i = true → i ∈ D)) ∧
     (∀ s i, IInv s now → isVar i = false → ∀ s' u, St.ideps f s i now = (s', .ok u) →
       ∃ D, Cascaded s s' [i] D) ∧
@@ -285,9 +338,9 @@ theorem ipost (now : Int) : ∀ f : Nat,
           | ok u =>
             rw [hr] at h
             injection h with h1 h2
-            have hd := pair_eta _ hr
+            have hd := st_pair_eta _ hr
             rw [h1] at hd
-            obtain ⟨D, hD⟩ := ih2 _ i (hinv.le hle) hi s' u hd
+            obtain ⟨D, hD⟩ := ih2 _ i (hinv.idel hsame fact) hi s' u hd
             have hf2 : (s1.idel i fact).facts = filterOut [i] s.facts := by
               simp only [St.idel, hsame.1, amErase_eq_filterOut]
             have hs2 : (s1.idel i fact).store = filterOut [i] s.store := by
@@ -318,9 +371,9 @@ theorem ipost (now : Int) : ∀ f : Nat,
         | ok u =>
           rw [hr] at h
           injection h with h1 h2
-          have hd := pair_eta _ hr
+          have hd := st_pair_eta _ hr
           rw [h1] at hd
-          obtain ⟨D, hD⟩ := ih2 _ i hinv hi s' u hd
+          obtain ⟨D, hD⟩ := ih2 _ i (hinv.absent hg) hi s' u hd
           refine ⟨D, hD, ?_, ?_, ?_⟩
           · intro hk
             rw [hD.facts] at hk
@@ -364,9 +417,9 @@ theorem ipost (now : Int) : ∀ f : Nat,
         | ok b =>
           rw [hr] at h
           simp only at h
-          have hd := pair_eta _ hr
+          have hd := st_pair_eta _ hr
           have hle : StLe s (St.irem f s i now).1 := (iframe now f).1 s i
-          obtain ⟨D1, hD1, hg1, _, _⟩ := ih1 s i hinv (hL i (by simp)) _ b hd
+          obtain ⟨D1, hD1, hg1, _, _⟩ := ih1 s i (hinv.but i) (hL i (by simp)) _ b hd
           obtain ⟨D2, hD2, hg2⟩ := ih3 _ rest (hinv.le hle) (fun j hj => hL j (List.mem_cons_of_mem _ hj)) s' u h
           refine ⟨D1 ++ D2, hD1.comp hD2, ?_⟩
           intro j hj
@@ -386,7 +439,7 @@ theorem keysOf_nodup_of_le {s s' : St} (hle : StLe s s') (hk : KeysNodup s) : (k
 theorem keysOf_subset_of_le {s s' : St} (hle : StLe s s') : keysOf s'.facts ⊆ keysOf s.facts :=
   (hle.facts.map _).subset
 
-theorem depPred_filter_nil {F : Facts} {i : String} (h : NoDeps F i) (c : List String) :
+theorem depPred_filter_nil {F : FactList} {i : String} (h : NoDeps F i) (c : List String) :
     c.filter (depPred F i) = [] := by
   rw [List.filter_eq_nil_iff]
   intro j _ hj
@@ -396,7 +449,7 @@ theorem depPred_filter_nil {F : Facts} {i : String} (h : NoDeps F i) (c : List S
   rw [this] at hd; cases hd
 
 theorem iterm (now : Int) : ∀ f : Nat,
-    (∀ s i, IInv s now → isVar i = false →
+    (∀ s i, IInvBut s i now → isVar i = false →
       ((amHas s.facts i = true ∧ 3 * s.facts.length + tiWidth s.ti + 3 ≤ f) ∨
        (NoDeps s.facts i ∧ amHas s.facts i = false ∧ tiWidth s.ti + 4 ≤ f) ∨
        (3 * s.facts.length + tiWidth s.ti + 6 ≤ f)) →
@@ -459,14 +512,14 @@ theorem iterm (now : Int) : ∀ f : Nat,
           have hle : StLe s (s1.idel i fact) := idel_le hsame i fact
           have hlen : (s1.idel i fact).facts.length + 1 = s.facts.length := by
             simp only [St.idel, hsame.1]
-            exact length_amErase_of_mem _ _ hinv.keys (amGet_isSome_iff.1 (by rw [hg]; rfl))
+            exact length_amErase_of_mem _ _ hinv.keys (amGet_isSome_iff_st.1 (by rw [hg]; rfl))
           have hw := hle.width
           have hneed : 3 * (s1.idel i fact).facts.length + tiWidth (s1.idel i fact).ti + 5 ≤ f := by
             rcases hb with hb | hb | hb
             · omega
             · rw [hb.2.1] at hpres; cases hpres
             · omega
-          have := ih2 _ i (hinv.le hle) hi (Or.inl hneed)
+          have := ih2 _ i (hinv.idel hsame fact) hi (Or.inl hneed)
           intro h
           apply this
           cases hr : (St.ideps f (s1.idel i fact) i now).2 with
@@ -480,7 +533,7 @@ theorem iterm (now : Int) : ∀ f : Nat,
           · rw [hb.1] at habs; cases habs
           · exact Or.inr ⟨hb.1, by omega⟩
           · exact Or.inl (by omega)
-        have := ih2 _ i hinv hi hneed
+        have := ih2 _ i (hinv.absent hg) hi hneed
         intro h
         apply this
         cases hr : (St.ideps f s i now).2 with
@@ -526,27 +579,27 @@ theorem iterm (now : Int) : ∀ f : Nat,
         rw [List.nodup_cons] at hnd
         have hiv := hLv i (by simp)
         have hrem : (St.irem f s i now).2 ≠ .error "fuel" := by
-          apply ih1 s i hinv hiv
+          apply ih1 s i (hinv.but i) hiv
           by_cases hk : i ∈ keysOf s.facts
           · left
             rw [cntAbs_cons_of_mem rest hk] at hb
-            refine ⟨by rw [amHas_eq_isSome]; exact amGet_isSome_iff.2 hk, by omega⟩
+            refine ⟨by rw [amHas_eq_isSome]; exact amGet_isSome_iff_st.2 hk, by omega⟩
           · right; left
             rw [cntAbs_cons_of_not_mem rest hk] at hb
             refine ⟨hpre i (by simp) hk, ?_, by omega⟩
             rw [amHas_eq_isSome]
             cases hh : amGet s.facts i with
             | none => rfl
-            | some v => exact absurd (amGet_isSome_iff.1 (by rw [hh]; rfl)) hk
+            | some v => exact absurd (amGet_isSome_iff_st.1 (by rw [hh]; rfl)) hk
         cases hr : (St.irem f s i now).2 with
         | error e =>
           simp only
           intro h; injection h with h; subst h; exact hrem hr
         | ok b =>
           simp only
-          have hd := pair_eta _ hr
+          have hd := st_pair_eta _ hr
           have hle : StLe s (St.irem f s i now).1 := (iframe now f).1 s i
-          obtain ⟨D1, hD1, hg1, _, hpD⟩ := (ipost now f).1 s i hinv hiv _ b hd
+          obtain ⟨D1, hD1, hg1, _, hpD⟩ := (ipost now f).1 s i (hinv.but i) hiv _ b hd
           have hK1nd : (keysOf (St.irem f s i now).1.facts).Nodup := hle.keys hinv.keys
           have hK1sub := keysOf_subset_of_le hle
           apply ih3 _ rest (hinv.le hle) hnd.2 (fun j hj => hLv j (List.mem_cons_of_mem _ hj))
@@ -586,7 +639,7 @@ theorem lsearch_dep {s : St} {now : Int} (hne : NoneExpired s now) {id : String}
     (s.facts.length + 1 < f →
       ∃ found, St.lsearch f s (depPat id) now = (s, .ok found) ∧
         found.map (·.1) = (keysOf s.facts).filter (depPred s.facts id)) := by
-  have hspec : s.lspec (depPat id) = .ok ((keysOf s.facts).filterMap (hit s.facts (depPat id))) := by
+  have hspec : s.lspec (depPat id) = .ok ((keysOf s.facts).filterMap (stHit s.facts (depPat id))) := by
     simp only [St.lspec]
     exact scan_depPat s.facts id hid _
   have hmap := hit_depPat_map s.facts id hid (keysOf s.facts)
@@ -621,7 +674,7 @@ theorem ldeps_props {s0 : St} (hk : KeysNodup s0) {i : String} (hi : i ∉ keysO
     rintro rfl; exact hi hjk
 
 theorem lpost (now : Int) : ∀ f : Nat,
-    (∀ s i, CInv s now → isVar i = false → ∀ s' b, St.lrem f s i now = (s', .ok b) →
+    (∀ s i, CInvBut s i now → isVar i = false → ∀ s' b, St.lrem f s i now = (s', .ok b) →
       ∃ D, Cascaded s s' [i] D ∧ i ∉ keysOf s'.facts ∧ b = amHas s.facts i ∧ i ∈ D) ∧
     (∀ s L, CInv s now → (∀ i, i ∈ L → isVar i = false) → ∀ s' u, St.lremAll f s L now = (s', .ok u) →
       ∃ D, Cascaded s s' L D ∧ ∀ i, i ∈ L → i ∉ keysOf s'.facts) := by
@@ -638,7 +691,7 @@ theorem lpost (now : Int) : ∀ f : Nat,
       rw [St.lrem_succ] at h
       simp only [hi, Bool.false_eq_true, ↓reduceIte] at h
       have hle : StLe s (s.ldel i) := ldel_le s i
-      have hinv0 := hinv.le hle
+      have hinv0 := hinv.ldel
       obtain ⟨hs1, _⟩ := lsearch_dep hinv0.nexp hi f
       rcases hs1 with hs1 | ⟨found, hs1, hmap⟩
       · rw [hs1] at h; cases h
@@ -652,7 +705,7 @@ theorem lpost (now : Int) : ∀ f : Nat,
         | ok u =>
           rw [hr] at h
           injection h with h1 h2
-          have hd := pair_eta _ hr
+          have hd := st_pair_eta _ hr
           rw [h1] at hd
           have hLnv : ∀ j, j ∈ ((keysOf (s.ldel i).facts).filter (depPred (s.ldel i).facts i)).filter (· != i) →
               isVar j = false := by
@@ -692,9 +745,9 @@ theorem lpost (now : Int) : ∀ f : Nat,
         | ok b =>
           rw [hr] at h
           simp only at h
-          have hd := pair_eta _ hr
+          have hd := st_pair_eta _ hr
           have hle : StLe s (St.lrem f s i now).1 := (lframe now f).1 s i
-          obtain ⟨D1, hD1, hg1, _, _⟩ := ih1 s i hinv (hL i (by simp)) _ b hd
+          obtain ⟨D1, hD1, hg1, _, _⟩ := ih1 s i (hinv.but i) (hL i (by simp)) _ b hd
           obtain ⟨D2, hD2, hg2⟩ := ih2 _ rest (hinv.le hle) (fun j hj => hL j (List.mem_cons_of_mem _ hj)) s' u h
           refine ⟨D1 ++ D2, hD1.comp hD2, ?_⟩
           intro j hj
@@ -707,7 +760,7 @@ theorem lpost (now : Int) : ∀ f : Nat,
           · exact hg2 j hj
 
 theorem lterm (now : Int) : ∀ f : Nat,
-    (∀ s i, CInv s now → isVar i = false →
+    (∀ s i, CInvBut s i now → isVar i = false →
       ((amHas s.facts i = true ∧ 2 * s.facts.length + 2 ≤ f) ∨
        (NoDeps s.facts i ∧ amHas s.facts i = false ∧ s.facts.length + 3 ≤ f) ∨
        (2 * s.facts.length + 4 ≤ f)) →
@@ -729,12 +782,12 @@ theorem lterm (now : Int) : ∀ f : Nat,
       rw [St.lrem_succ]
       simp only [hi, Bool.false_eq_true, ↓reduceIte]
       have hle : StLe s (s.ldel i) := ldel_le s i
-      have hinv0 := hinv.le hle
+      have hinv0 := hinv.ldel
       have hn0 := hle.length_le
       have hpres : amHas s.facts i = true → (s.ldel i).facts.length + 1 = s.facts.length := by
         intro hp
         simp only [St.ldel]
-        exact length_amErase_of_mem _ _ hinv.keys (amGet_isSome_iff.1 (by rw [← amHas_eq_isSome]; exact hp))
+        exact length_amErase_of_mem _ _ hinv.keys (amGet_isSome_iff_st.1 (by rw [← amHas_eq_isSome]; exact hp))
       have hf : (s.ldel i).facts.length + 1 < f := by
         rcases hb with hb | hb | hb
         · have := hpres hb.1; omega
@@ -787,27 +840,27 @@ theorem lterm (now : Int) : ∀ f : Nat,
         rw [List.nodup_cons] at hnd
         have hiv := hLv i (by simp)
         have hrem : (St.lrem f s i now).2 ≠ .error "fuel" := by
-          apply ih1 s i hinv hiv
+          apply ih1 s i (hinv.but i) hiv
           by_cases hk : i ∈ keysOf s.facts
           · left
             rw [cntAbs_cons_of_mem rest hk] at hb
-            refine ⟨by rw [amHas_eq_isSome]; exact amGet_isSome_iff.2 hk, by omega⟩
+            refine ⟨by rw [amHas_eq_isSome]; exact amGet_isSome_iff_st.2 hk, by omega⟩
           · right; left
             rw [cntAbs_cons_of_not_mem rest hk] at hb
             refine ⟨hpre i (by simp) hk, ?_, by omega⟩
             rw [amHas_eq_isSome]
             cases hh : amGet s.facts i with
             | none => rfl
-            | some v => exact absurd (amGet_isSome_iff.1 (by rw [hh]; rfl)) hk
+            | some v => exact absurd (amGet_isSome_iff_st.1 (by rw [hh]; rfl)) hk
         cases hr : (St.lrem f s i now).2 with
         | error e =>
           simp only
           intro h; injection h with h; subst h; exact hrem hr
         | ok b =>
           simp only
-          have hd := pair_eta _ hr
+          have hd := st_pair_eta _ hr
           have hle : StLe s (St.lrem f s i now).1 := (lframe now f).1 s i
-          obtain ⟨D1, hD1, hg1, _, hpD⟩ := (lpost now f).1 s i hinv hiv _ b hd
+          obtain ⟨D1, hD1, hg1, _, hpD⟩ := (lpost now f).1 s i (hinv.but i) hiv _ b hd
           have hK1nd : (keysOf (St.lrem f s i now).1.facts).Nodup := hle.keys hinv.keys
           have hK1sub := keysOf_subset_of_le hle
           apply ih2 _ rest (hinv.le hle) hnd.2 (fun j hj => hLv j (List.mem_cons_of_mem _ hj))
